@@ -521,17 +521,23 @@ func (rc *RegClient) ImageCopy(ctx context.Context, refSrc ref.Ref, refTgt ref.R
 	if w := warning.FromContext(ctx); w == nil {
 		ctx = warning.NewContext(ctx, &warning.Warning{Hook: warning.DefaultHook()})
 	}
-	// block GC from running (in OCIDir) during the copy
-	schemeTgtAPI, err := rc.schemeGet(refTgt.Scheme)
-	if err != nil {
-		return err
+	// block GC from running (in OCIDir) during the copy, referrers may be written to a separate target
+	gcRefs := []ref.Ref{refTgt}
+	if opt.referrerTgt.IsSet() && !ref.EqualRepository(refTgt, opt.referrerTgt) {
+		gcRefs = append(gcRefs, opt.referrerTgt)
 	}
-	if tgtGCLocker, isGCLocker := schemeTgtAPI.(scheme.GCLocker); isGCLocker {
-		tgtGCLocker.GCLock(refTgt)
-		defer tgtGCLocker.GCUnlock(refTgt)
+	for _, r := range gcRefs {
+		schemeAPI, err := rc.schemeGet(r.Scheme)
+		if err != nil {
+			return err
+		}
+		if gcLocker, isGCLocker := schemeAPI.(scheme.GCLocker); isGCLocker {
+			gcLocker.GCLock(r)
+			defer gcLocker.GCUnlock(r)
+		}
 	}
 	// run the copy of manifests and blobs recursively
-	err = rc.imageCopyOpt(ctx, refSrc, refTgt, descriptor.Descriptor{}, opt.child, []digest.Digest{}, &opt)
+	err := rc.imageCopyOpt(ctx, refSrc, refTgt, descriptor.Descriptor{}, opt.child, []digest.Digest{}, &opt)
 	if err != nil {
 		return err
 	}
